@@ -936,6 +936,40 @@ fn run_on_caller_stack(scenario: &Value, stats: &mut Stats) -> Outcome {
                     r.shuffle(&mut dg);
                     cx.chunks(&dg);
                 }
+                // longer lists (33..120 chunks) with stale retransmissions: 2..6 further copies of one or
+                // two chunks, each with sequence numbers of its own (anywhere in their ranges), in
+                // several arrival orders
+                for _ in 0..12 {
+                    let g = PwbGen {
+                        board: r.usize(0, nb - 1),
+                        chip: r.below(4) as u8,
+                        channels: (0..10).map(|c| 3 + 2 * c).collect(),
+                        requested_samples: r.range(16, 24) as u16,
+                        sample_seed: r.next_u64(),
+                        kind: "valid".to_string(),
+                    };
+                    let payload = g.payload();
+                    let board = &boards::pwb_boards()[g.board];
+                    let want = r.usize(33, 120);
+                    let mut specs = chunk_message(board.device_id, g.chip, r.next_u32(), r.next_u32() as u16, &payload, payload.len() / want + 1);
+                    let n = specs.len();
+                    log.u64(n as u64);
+                    let ids = [r.usize(0, n - 1), r.usize(0, n - 1)];
+                    for k in 0..r.usize(2, 6) {
+                        let mut c = specs[ids[k % if r.chance(1, 3) { 2 } else { 1 }]].clone();
+                        c.channel_seq = r.next_u32() as u16;
+                        if r.chance(1, 2) {
+                            c.packet_seq = r.next_u32();
+                        }
+                        specs.push(c);
+                    }
+                    cx.stats.fault("stale_copies_with_other_sequence_numbers");
+                    let mut dg: Vec<Vec<u8>> = specs.iter().map(|c| c.encode()).collect();
+                    for _ in 0..8 {
+                        r.shuffle(&mut dg);
+                        cx.chunks(&dg);
+                    }
+                }
             }
             Family::Trg => {
                 for _ in 0..3 {
